@@ -2,6 +2,10 @@ SPECIFICATION HSpec
 CONSTANTS
   ClearCountsRows = TRUE
   PlainNewline = TRUE
+  QuietClears = FALSE
+  Flags <- NoFlags
+  Verbs <- NoFlags
+  QuietOps = FALSE
   W = 7
   Lens <- LensW7
   Pairs <- PairsW7
